@@ -552,7 +552,9 @@ var table = []entry{
 	{"entropy", false, func(in inputs) []string { return a("compute", "entropy", "-i", in.nt) }},
 	{"entropy-average", false, func(in inputs) []string { return a("compute", "entropy", "-i", in.nt, "-a", "-g") }},
 	{"pssm", false, func(in inputs) []string { return a("compute", "pssm", "-i", in.nt, "-n", "1", "-c", "0.5") }},
-	{"pssm-log", false, func(in inputs) []string { return a("compute", "pssm", "-i", in.aa, "-n", "2", "-l") }},
+	{"pssm-log", false, func(in inputs) []string { return a("compute", "pssm", "-i", in.aa, "-n", "3", "-l") }},
+	{"pssm-data", false, func(in inputs) []string { return a("compute", "pssm", "-i", in.nt, "-n", "2") }},
+	{"pssm-logo", false, func(in inputs) []string { return a("compute", "pssm", "-i", in.nt, "-n", "4", "-c", "0.1") }},
 	{"clean-sites", false, func(in inputs) []string { return a("clean", "sites", "-i", in.nt, "-c", "0", "-q") }},
 	{"clean-sites-maj", false, func(in inputs) []string {
 		return a("clean", "sites", "-i", in.nt, "--char", "MAJ", "-c", "0.5", "--positions", "kept.txt", "--positions-rm", "removed.txt")
@@ -632,9 +634,13 @@ func runCommands(c *mon.Case) {
 	defer os.RemoveAll(dir)
 	in := mkInputs(r, dir, variant)
 	seed := fmt.Sprint(1 + r.Intn(1000000))
+	if e.random && r.Chance(0.3) { // every value but -1 ("no seed") is a seed
+		seed = r.PickStr([]string{"0", "-2", "-987654321", "-9223372036854775808", "9223372036854775807"})
+		c.Count("seed:zero-negative-or-extreme")
+	}
 	args := e.args(in)
 	if e.random {
-		args = append(args, "--seed", seed)
+		args = append(args, "--seed="+seed)
 	}
 	threads := threadsQuick
 	reps := 2
@@ -696,7 +702,7 @@ func runCommands(c *mon.Case) {
 		in2 := mkInputs(r, d2, variant+1)
 		other = run(bin, dir, k, append(e.args(in2), "-t", "1"))
 		// a deterministic command must not depend on the seed either
-		o3 := run(bin, dir, k+1, append(append([]string{}, args...), "-t", "2", "--seed", seed))
+		o3 := run(bin, dir, k+1, append(append([]string{}, args...), "-t", "2", "--seed="+seed))
 		if o3.digest() != first.digest() {
 			c.Failf("not-reproducible:"+e.name, "goalign %s\nthe command involves no randomness but its output changes when --seed %s is given: %s", shown, seed, firstDiff(first, o3))
 			return
@@ -736,9 +742,9 @@ func runChains(c *mon.Case) {
 	defer os.RemoveAll(dir)
 	n := r.Range(1, 8)
 	L := r.PickInt(gen.BoundaryLens)
-	alpha := "ACGTacgtRYKMSWBDHVN-"
+	alpha := "ACGTacgtRYKMSWBDHVN-?"
 	if r.Chance(0.4) {
-		alpha = gen.AaCore + gen.AaLower + "BZX-*"
+		alpha = gen.AaCore + gen.AaLower + "BZX-*?"
 	}
 	rows := make(gen.Rows, n)
 	for i := range rows {
@@ -895,7 +901,7 @@ func main() {
 		mon.Floor("boot-ok:"+m, 1)
 	}
 	mon.Main("C11", []mon.Sub{
-		{Name: "commands", Quick: 2 * len(table), Thorough: 8 * len(table), Run: runCommands},
+		{Name: "commands", Quick: 3 * len(table), Thorough: 8 * len(table), Run: runCommands},
 		{Name: "chains", Quick: 120, Thorough: 2000, Run: runChains},
 		{Name: "boot", Quick: 28, Thorough: 280, Run: runBoot},
 		{Name: "race-cli", Quick: 0, Thorough: 2 * len(table), Run: runRaceCLI},
